@@ -485,9 +485,9 @@ class Spline(BaseGridder):
         """
         check_is_fitted(self, ["force_"])
         shape = np.broadcast(*coordinates[:2]).shape
-        force_east, force_north = n_1d_arrays(self.force_coords_, n=2)
-        east, north = n_1d_arrays(coordinates, n=2)
-        data = np.empty(east.size, dtype=np.result_type(east.dtype, np.float32))
+        force_east, force_north = n_1d_arrays(self.force_coords_, n=2, floating=True)
+        east, north = n_1d_arrays(coordinates, n=2, floating=True)
+        data = np.empty(east.size, dtype=east.dtype)
         if parse_engine(self.engine) == "numba":
             data = predict_numba(
                 east, north, force_east, force_north, self.mindist, self.force_, data
@@ -524,8 +524,8 @@ class Spline(BaseGridder):
             The (n_data, n_forces) Jacobian matrix.
 
         """
-        force_east, force_north = n_1d_arrays(force_coords, n=2)
-        east, north = n_1d_arrays(coordinates, n=2)
+        force_east, force_north = n_1d_arrays(force_coords, n=2, floating=True)
+        east, north = n_1d_arrays(coordinates, n=2, floating=True)
         jac = np.empty((east.size, force_east.size), dtype=dtype)
         if parse_engine(self.engine) == "numba":
             jac = jacobian_numba(
